@@ -94,6 +94,8 @@ func unmarshalTargets() []func() interface{} {
 		func() interface{} { var v ion.SymbolToken; return &v },
 		func() interface{} { var v *string; return &v },
 		func() interface{} { var v []string; return &v },
+		func() interface{} { var v [4]NamedU8; return &v },
+		func() interface{} { var v []NamedU8; return &v },
 		func() interface{} { var v map[NamedKey]int; return &v },
 		func() interface{} { var v NamedMix; return &v },
 		func() interface{} { var v []NamedMap; return &v },
@@ -652,6 +654,38 @@ func hostileDocs(r *rand.Rand) []hostileInput {
 	}
 	varInts := [][]byte{{0x3F, 0x7F, 0x7F, 0x7F, 0xFF}, {0x7F, 0x7F, 0x7F, 0x7F, 0xFF}, {0x07, 0x7F, 0x7F, 0x7F, 0xFF}, {0x47, 0x7F, 0x7F, 0x7F, 0xFF},
 		{0x08, 0x00, 0x00, 0x00, 0x80}, {0x48, 0x00, 0x00, 0x00, 0x80}, {0x01, 0x7F, 0x7F, 0x7F, 0x7F, 0x7F, 0x7F, 0x7F, 0x7F, 0xFF}, {0x41, 0x7F, 0x7F, 0x7F, 0x7F, 0x7F, 0x7F, 0x7F, 0x7F, 0xFF}, {0xC0}, {0x80}}
+	// every exponent within 40 of the int32 limits (the library does arithmetic on exponents)
+	varInt := func(v int64) []byte {
+		neg := v < 0
+		m := uint64(v)
+		if neg {
+			m = uint64(-v)
+		}
+		var groups []byte
+		for {
+			groups = append([]byte{byte(m & 0x7F)}, groups...)
+			m >>= 7
+			if m == 0 {
+				break
+			}
+		}
+		if groups[0]&0x40 != 0 {
+			groups = append([]byte{0}, groups...)
+		}
+		if neg {
+			groups[0] |= 0x40
+		}
+		groups[len(groups)-1] |= 0x80
+		return groups
+	}
+	for k := int64(0); k <= 40; k++ {
+		for _, v := range []int64{1<<31 - 1 - k, -(1 << 31) + k, 1<<31 + k, -(1 << 31) - 1 - k} {
+			varInts = append(varInts, varInt(v))
+			if k%3 == 0 {
+				add("extreme-exponent", []byte(fmt.Sprintf("1d%d -15d%d 0d%d -0d%d 1.5d%d", v, v, v, v, v)))
+			}
+		}
+	}
 	for _, vi := range varInts {
 		for _, coef := range [][]byte{nil, {0x01}, {0x80}, {0xFF, 0xFF, 0xFF, 0xFF, 0xFF, 0xFF, 0xFF, 0xFF, 0xFF}, {0x7F, 0xFF, 0xFF, 0xFF, 0xFF, 0xFF, 0xFF, 0xFF}} {
 			body := append(append([]byte{}, vi...), coef...)
